@@ -644,7 +644,11 @@ def char_string(vm, c):
     if w is not None: return BStr(Buf([c], [w]))
     if getattr(vm, 'str_mode', 'opaque') == 'bounded':
         w = getattr(vm, 'cp_width', {}).get(c.get_id())
-        if w is None: raise Unmodelled('symbolic char of unknown UTF-8 width to bounded string')
+        if w is None:
+            # a derived character (e.g. a case-mapped one): its UTF-8 width is decided by solver-checked range tests
+            w = 1 if truth(vm, z3.ULT(c, 0x80)) else 2 if truth(vm, z3.ULT(c, 0x800)) else 3 if truth(vm, z3.ULT(c, 0x10000)) else 4
+            if not hasattr(vm, 'cp_width'): vm.cp_width = {}
+            vm.cp_width[c.get_id()] = w; vm.keep.append(c)
         return BStr(Buf([c], [w]))
     return SymStr(char_to_str(c))
 
